@@ -386,7 +386,9 @@ fn c08_drop_scenario(r: &mut Report, seed: u64, case: u64) {
         return;
     }
     r.observe("otlp:worker-threads-gone-after-drop", 1);
-    r.set("max_worker_exit_ms", json!(dropped_at.elapsed().as_millis() as u64));
+    let exit_ms = dropped_at.elapsed().as_millis() as u64;
+    let prev = r.extra.get("max_worker_exit_ms").and_then(|v| v.as_u64()).unwrap_or(0);
+    r.set("max_worker_exit_ms", json!(prev.max(exit_ms)));
     r.nontrivial(&("c08-drop", tname, subset, state, dead));
     // what was queued at the drop has been delivered (healthy endpoints only)
     col.settle();
@@ -600,7 +602,7 @@ fn main() {
         }
         std::process::exit(r.finish());
     }
-    let n = args.get_u64("scenarios", if args.thorough() { 420 } else { 42 });
+    let n = args.get_u64("scenarios", if args.thorough() { 1680 } else { 42 });
     let n = (n * args.scale / 100).max(1);
     par_cases(&mut r, &args, n, |i, r| c07_scenario(r, seed, i));
     std::process::exit(r.finish());
